@@ -13,6 +13,9 @@ KNOWN_LOOP_HANG = "hang:LoopCombinatorStep-keeps-reading-after-FAILED-terminatio
 KNOWN_CANCEL = "executor-_cancel-marks-closed:FAILED-termination-on-an-output-port:steps-still-running-when-run-raises"
 
 
+KNOWN_PIPELINE_SWALLOWS = "failure-not-propagated-through-job-pipeline:ExecuteStep-ends-SKIPPED-or-COMPLETED-although-its-ScheduleStep-FAILED"
+
+
 def oracle(spec: dict, res: dict, failing: bool):
     """yield (key, detail): ways in which one real run contradicts the property statement"""
     kind = res["outcome"]["kind"]
@@ -27,7 +30,14 @@ def oracle(spec: dict, res: dict, failing: bool):
                 yield KNOWN_LOOP_HANG, (f"{res['outcome']['detail']}: {name} got a FAILED termination on {bad_in} and still waits for the "
                                         f"iteration termination of {[(p, lc['checklist'][p]) for p in waiting]}")
                 return
-        yield "hang:executor-run-does-not-finish", f"{res['outcome']['detail']}; unterminated steps {res.get('unterminated_at_exit')}"
+        if res.get("self_awaiting_tasks"):
+            # dead-lock by inspection, not by the clock: close() ran inside a step task (`_handle_exception` after run() raised)
+            # and cancelled + awaited that very task
+            yield "hang:close-awaits-the-task-it-runs-in", (f"{res['outcome']['detail']}; unterminated steps {res.get('unterminated_at_exit')}; "
+                                                             f"pending {res.get('pending', [])[:4]}")
+            return
+        yield "hang:executor-run-does-not-finish", (f"{res['outcome']['detail']}; unterminated steps {res.get('unterminated_at_exit')}; "
+                                                    f"pending tasks {res.get('pending', [])[:6]}")
         return
     if kind == "harness-error":
         return
@@ -63,6 +73,14 @@ def oracle(spec: dict, res: dict, failing: bool):
                 yield "failure:steps-not-terminated-when-run-raises", f"steps {unterm_exit[:8]} not terminated when run() raised (not the _cancel path)"
         if unterm_late and not (cancel_path and unterm_exit):
             yield "failure:steps-never-terminated", f"steps {unterm_late[:8]} still not terminated after the executor raised and the loop settled"
+        for nid, name, st, via_pipeline in downstream_statuses(spec, res):
+            if via_pipeline:
+                sched = {k: v["status"] for k, v in res.get("steps", {}).items() if "/__schedule__" in k or "/__transfer__" in k or k.endswith("-exec")}
+                yield KNOWN_PIPELINE_SWALLOWS, (f"step {name} lies downstream of the failed step but ended {st}: a job pipeline with >= 2 inputs "
+                                                f"whose ScheduleStep FAILED did not end FAILED itself; pipeline step statuses {sched}")
+            else:
+                yield "failure:step-downstream-of-the-failed-step-ends-" + str(st), (
+                    f"step {name} consumes (transitively) the outputs of the failed step but ended {st}")
         if res.get("pending"):
             if cancel_path and unterm_exit:
                 yield KNOWN_CANCEL, f"tasks still pending after run() raised: {res['pending'][:6]}"
@@ -102,7 +120,63 @@ FAIL_CORPUS = [
         {"id": 2, "kind": "tf", "ins": [3], "outs": [4], "fn": "add", "k": 1},
         {"id": 3, "kind": "exec", "ins": [4], "outs": [5], "k": 1, "allcores": True},
         {"id": 4, "kind": "tf", "ins": [2, 5], "outs": [6], "fn": "lin", "k": 0}]},
+    # two branches of one scatter joined by a 2-input transformer, the branch on the SECOND (resp. first) port fails on
+    # element 0.1 and so delivers fewer tokens than the other: the join reads one token per port each round and must
+    # recognise the termination token on whichever port it arrives (else its next reading round blocks on a terminated port)
+    *[{"nports": 7, "sources": [{"port": 0, "value": [1, 2, 3, 4]}], "closed": [], "nodes": [
+        {"id": 0, "kind": "scatter", "ins": [0], "outs": [1, 2]},
+        {"id": 1, "kind": "tf", "ins": [1], "outs": [3], "fn": "add", "k": 1},
+        {"id": 2, "kind": "tf", "ins": [1], "outs": [4], "fn": "add", "k": 2, "fail": {"tag": "0.1"}},
+        {"id": 3, "kind": "tf", "ins": ins, "outs": [5], "fn": "lin", "k": 0},
+        {"id": 4, "kind": "gather", "ins": [5, 2], "outs": [6], "depth": 1}]} for ins in ([3, 4], [4, 3])],
+    # an exception ESCAPES a step's run() (ScatterStep on a non-list token) while another branch (scatter -> delayed jobs ->
+    # gather) is still running: `_handle_exception` calls close() INSIDE the raising step's task. In a workflow without
+    # output ports nobody else closes the executor (run() only awaits the step tasks): before 92ab986 close() cancelled and
+    # awaited the task it was running in (RecursionError inside asyncio, run() never returned). Second variant: with output
+    # ports (there the main task's `_wait_outputs` -> `_cancel` -> close() rescued the old code).
+    *[{"nports": 9, **no_out, "sources": [{"port": 0, "value": [3, 5]}, {"port": 1, "value": [1, 2, 3]}], "closed": [], "nodes": [
+        {"id": 0, "kind": "tf", "ins": [0], "outs": [2], "fn": "sum", "k": 0, "fail": {"mode": "escape"}},
+        {"id": 1, "kind": "scatter", "ins": [2], "outs": [3, 4]},
+        {"id": 2, "kind": "scatter", "ins": [1], "outs": [5, 6]},
+        {"id": 3, "kind": "exec", "ins": [5], "outs": [7], "k": 1, "delay": 0.1},
+        {"id": 4, "kind": "gather", "ins": [7, 6], "outs": [8], "depth": 1}]} for no_out in ({"no_outputs": True}, {})],
 ]
+
+
+def downstream_statuses(spec: dict, res: dict):
+    """C04.downstream_of_failed_never_good on the real run: (node id, step name, status) of every node that lies downstream
+    of the failing step along a path WITHOUT combinator / loop nodes and ended COMPLETED (or with a non-terminal status). (A CombinatorStep
+    resets its status to COMPLETED when a data token arrives after a FAILED termination, so the status of a combinator
+    downstream of a failure depends on the arrival order: those nodes and everything behind them are left out.)"""
+    f = _fail_node(spec)
+    if f is None or f >= len(spec["nodes"]):
+        return []
+    tainted = set(spec["nodes"][f]["outs"])
+    swallowed: set = set()     # ports behind a job pipeline that dropped the failure (known finding, see KNOWN_PIPELINE_SWALLOWS)
+    bad = []
+    steps = res.get("steps", {})
+    for n in spec["nodes"][f + 1:]:
+        if not any(p in tainted for p in n["ins"]):
+            continue
+        if n["kind"] in ("dot", "cart", "loop"):
+            continue
+        tainted.update(n["outs"])
+        name = f"/n{n['id']}-{n['kind']}"
+        st = steps.get(name, {}).get("status")
+        if any(p in swallowed for p in n["ins"]):
+            swallowed.update(n["outs"])
+        if (n["kind"] == "exec" and len(n["ins"]) >= 2 and steps.get(name + "/__schedule__", {}).get("status") in ("FAILED", "CANCELLED")
+                and st not in ("FAILED", "CANCELLED")):
+            # the pipeline's ScheduleStep failed (FAILED termination on one input) but its ExecuteStep did not
+            swallowed.update(n["outs"])
+            if st == "SKIPPED":
+                bad.append((n["id"], name, st, True))
+        # FAILED / CANCELLED as in the model; SKIPPED happens in the real engine when close() (not atomic: one terminate()
+        # task per step) has put a CANCELLED termination token that a still running consumer with empty outputs reads
+        # before it is cancelled itself: `_get_status(CANCELLED)` is SKIPPED on empty outputs. Never COMPLETED.
+        if st not in ("FAILED", "CANCELLED", "SKIPPED"):
+            bad.append((n["id"], name, st, any(p in swallowed for p in n["ins"] + n["outs"])))
+    return bad
 
 
 def _fail_node(spec: dict):
@@ -117,8 +191,9 @@ def _fail_node(spec: dict):
 class C04(Property):
     pid = "C04"
     title = "Every well-formed workflow terminates, and failures terminate every step"
-    lean_targets = ["SFV.Props.C04", "SFV.Props.C04Loop", "SFV.Props.C04Guards"]
-    props_files = ["SFV/Props/C04.lean", "SFV/Props/C04Loop.lean", "SFV/Props/C04Guards.lean"]
+    lean_targets = ["SFV.Props.C04", "SFV.Props.C04Loop", "SFV.Props.C04Guards", "SFV.Props.C04Status", "SFV.Props.C04LoopNet", "SFV.Props.C04Crash"]
+    props_files = ["SFV/Props/C04.lean", "SFV/Props/C04Loop.lean", "SFV/Props/C04Guards.lean", "SFV/Props/C04Status.lean",
+                   "SFV/Props/C04LoopNet.lean", "SFV/Props/C04Crash.lean"]
     drivers = ["Drivers/Net.lean"]
     translators = [stepguards.generate]
     rule = ("random well-formed DAG workflows (sfv.rt.wfgen: 2..12 nodes from the real step classes — transformers, scatter/gather "
@@ -126,7 +201,9 @@ class C04(Property):
             "pipelines) run on the real StreamFlowExecutor under the default asyncio order and 2 (quick) / 6 (thorough) PRNG task "
             "interleavings each; half of the workflows additionally with one injected failure (a transformer raising on one tag, or a "
             "scatter fed a non-list so that the exception escapes run() into the executor, a failing job, a loop body failing in a later "
-            "iteration; witness workflows incl. two resource-contended job pipelines run first). Oracle per run: executor "
+            "iteration; witness workflows run first: two resource-contended job pipelines, joins of unequal branches in both port orders, an "
+            "escaping exception with and WITHOUT workflow output ports; 15 % of the failing workflows have no output ports). A hang is "
+            "run() unfinished and no change of the workflow state for a load-scaled window (or a task awaiting itself), never elapsed time alone. Oracle per run: executor "
             "return/raise, hang watchdog, every step terminated at the moment run() exits, one termination token per port, no pending "
             "task. Compared with the Lean model: executor outcome and (failure-free) the final status of every step. Non-trivial = "
             "workflow with >= 3 nodes.")
@@ -241,6 +318,25 @@ class C04(Property):
                     lines.append("loopcomb g " + " ".join(streams))
                     metas.append(("loopcomb", run_spec, failing, [dict(r, _lc=(lname, lc))]))
                     ctx.count("loop-combinator-runs")
+            # K for the loop sub-network model (LoopNet): per loop instance, body executions and loop output
+            if not failing:
+                for nd in run_spec["nodes"]:
+                    if nd["kind"] != "loop":
+                        continue
+                    for r in runs:
+                        if r["outcome"]["kind"] != "return":
+                            continue
+                        lc = r.get("loop_combinators", {}).get(f"/n{nd['id']}-loop-loop-combinator")
+                        if not lc:
+                            continue
+                        stream = lc["inputs"]["counter"]["stream"]
+                        for tag, c in r["ports"][str(nd["ins"][0])].items():
+                            l = r["ports"][str(nd["ins"][1])].get(tag)
+                            bodies = sum(1 for t in stream if t.startswith("d" + tag + ".") and t.count(".") == tag.count(".") + 1)
+                            out = r["ports"][str(nd["outs"][0])].get(tag)
+                            lines.append(f"loopnet {nd['k']} {c} {l}")
+                            metas.append(("loopnet", run_spec, failing, [dict(r, _ln=(nd["id"], tag, bodies, out))]))
+                            ctx.count("loop-instances")
             words = wfcheck.spec_words(run_spec)
             lines.append(f"exec {words}" + (f" fail={fail_node}" if failing else ""))
             metas.append(("outcome", run_spec, failing, runs))
@@ -250,7 +346,14 @@ class C04(Property):
         got = ctx.lean("Drivers/Net.lean", lines)
         for g, (what, spec, failing, runs) in zip(got, metas):
             for r in runs:
-                if r["outcome"]["kind"] == "harness-error" or (r["outcome"]["kind"] == "hang" and what != "loopcomb"):
+                if r["outcome"]["kind"] == "harness-error" or (r["outcome"]["kind"] == "hang" and what not in ("loopcomb", "loopnet")):
+                    continue
+                if what == "loopnet":
+                    nid, tag, bodies, out = r["_ln"]
+                    real = f"bodies={bodies};out={out}"
+                    if real != g:
+                        ctx.disagree("loop sub-network (LoopNet) vs real loop", f"loop node {nid} instance {tag}: real {real}, model {g}",
+                                     {"spec": spec, "failing": failing, "seed": r["seed"], "shuffle": r["shuffle"]})
                     continue
                 if what == "loopcomb":
                     lname, lc = r["_lc"]
